@@ -80,6 +80,23 @@ pub fn expr_cmd(name: &str, args: &[Sx]) -> Option<Sx> {
             let expr = sx_expr(e);
             Some(Sx::ok(value_sx(&expr.eval(&row))))
         }
+        // ONE expression object evaluated on rows of several layouts, one after the other
+        ("x_expr_eval_rows", [e, rows]) => {
+            let expr = sx_expr(e);
+            let mut out = Vec::new();
+            for r in rows.as_list() {
+                let mut names = Vec::new();
+                let mut values = Vec::new();
+                for p in r.as_list() {
+                    let p = p.as_list();
+                    names.push(p[0].as_string());
+                    values.push(sx_value(&p[1]));
+                }
+                let row = msi::verif_hooks::make_row("T", &names, values);
+                out.push(value_sx(&expr.eval(&row)));
+            }
+            Some(Sx::ok(Sx::L(out)))
+        }
         ("expr_text", [e]) => Some(Sx::ok(Sx::string(&sx_expr(e).to_string()))),
         ("expr_cols", [e]) => {
             let expr = sx_expr(e);
